@@ -32,3 +32,5 @@ def run(ctx):
         querycamp.run(ctx, "C06")
         from .. import foreignread   # FOREIGN-BUT-VALID layouts: seeks and partitions on files whose data offset / data end come from parser steps the library's writer never exercises
         foreignread.run(ctx, "C06")
+        from .. import handleg       # (round 9) the GENERIC handle machine Sf.HandleG: whole histories on AIFF / CAF / W64 / AVR / IRCAM / PAF / HTK (+ RAW / AU / WAV) byte for byte incl. store dumps
+        handleg.run(ctx, "C06", 150 if q else 3000)
